@@ -264,6 +264,9 @@ func (e *Engine) FieldWrites(fld *types.Var) []FieldWrite {
 		return nil
 	}
 	for _, fn := range e.ScopeFuncs() {
+		if !e.IsLive(fn) {
+			continue // test-only helper shipped in a non-test file, unused wrapper
+		}
 		forEachInstr(fn, func(in ssa.Instruction) {
 			switch x := in.(type) {
 			case *ssa.Store:
